@@ -123,9 +123,11 @@ def main(tier, seed):
         from . import modscope
         modscope.W = scopes.W
         modscope.part_c18(chk, tier, jobs, oracle)
+        modscope.part_c18_fields(chk, tier, jobs, oracle)
     finally:
         oracle.close(); scopes.W.cleanup()
     chk.assumptions += [
+        'fields after `value.`: def::lower::LowerCtx::lower_custom_type on its real MIR with the syntax accessors and lower_constructor modelled: <= 2 (thorough 3) constructors whose labelled-field sets are symbolic subsets of {a, b}; the common fields must be the labels every constructor has; replayed through triggered completion on three probe types',
         'module accessors: ide::completion::complete_expr on its real MIR with the database havoc\'d and one module import (alias symbolic): the module must be looked up under the local accessor the module scope registers (alias, else accessor; C05 kernel) and rendered once; replayed through ide::Analysis::completions on a three-module workspace',
         'kernel claim: Resolver::values_names_in_scope (the separate walk the completion list is built from) contains a name exactly when Resolver::resolve_name finds a non-built-in definition for it, and both give the same definition - '
         'at every identifier position of %d function-body templates, for every assignment of local names and of two module-level names (a function and a constant) from the same pool, so that locals shadow module items' % len(scopes.TEMPLATES),
